@@ -64,6 +64,11 @@ def permutation_specs(ctx, rng):
             perm = dict(rule, subs=list(reversed(rule["subs"])), objs=list(reversed(rule["objs"])))
             ep.spec["items"].append({"op": "eval", "a": 0, "rid": r1 + "p", "rule": perm, "keep": True})
             ep.law("same", [r1, r1 + "p"])
+            # ... and with an entry listed twice (the configuration is the same set of modules)
+            dup = dict(rule, subs=rule["subs"] + [rule["subs"][0]],
+                       objs=(rule["objs"] + [rule["objs"][-1]]) if rule["objs"] else [])
+            ep.spec["items"].append({"op": "eval", "a": 0, "rid": r1 + "d", "rule": dup, "keep": True})
+            ep.law("same", [r1, r1 + "d"])
             # and the very same rule once more after everything else (history independence on one architecture)
             ep.spec["items"].append({"op": "eval", "a": 0, "rid": r1, "rule": rule, "keep": True})
         rspecs.append(ep.spec)
